@@ -310,7 +310,7 @@ SEAT_TIER = {
                         (8, ["-emit", "next", "-frontier", "random", "-max-states", "40000"])],
                   random_runs=400, steps=70, sim_num=200, conc_runs=150),
     "thorough": dict(mc=[(3, "{1,2,3,4}"), (4, "{1,2,3,4,5}"), (5, "{1,2,3,4,5,6}")], explore=[(3, 4, []), (4, 5, ["-emit", "changing"])],
-                     anon=[(5, ["-emit", "changing", "-latejoin", "1"]), (6, ["-emit", "next", "-sample", "6", "-latejoin", "4"]),
+                     anon=[(5, ["-emit", "changing", "-latejoin", "1"]), (6, ["-emit", "next", "-sample", "6", "-latejoin", "1"]),   # every late-joiner situation of the complete 6-seat graph (215,808 runs)
                            (7, ["-emit", "next", "-frontier", "random", "-max-states", "400000"]),
                            (9, ["-emit", "next", "-frontier", "random", "-max-states", "300000"])],
                      random_runs=5000, steps=90, sim_num=300, conc_runs=3000),
